@@ -110,6 +110,22 @@ def stackLeaves (samples : List Leaves) (o : Nat) : Leaves :=
 def removeBD (o : Nat) (b : BTD) : TD :=
   ⟨b.batch.insertIdx o b.size, b.names.insertIdx o none, stackLeaves ((List.range b.size).map b.sample) o⟩
 
+/-! ### vmap dimensions of size 0 -/
+
+/-- `torch.stack` with the element shape given explicitly: also meaningful for an empty list (functorch
+runs the function once on batched tensors of size 0, so the result shapes exist although there is no sample) -/
+def stackT (tshape : Shape) (ts : List T) (d : Nat) : T :=
+  ⟨tshape.insertIdx d ts.length, fun c => (ts.getD (c.getD d 0) default).get (c.eraseIdx d)⟩
+
+def stackLeavesT (template : Leaves) (samples : List Leaves) (o : Nat) : Leaves :=
+  template.zipIdx.map (fun (p : (String × T) × Nat) =>
+    (p.1.1, stackT p.1.2.shape (samples.map (fun l => (l.getD p.2 default).2)) o))
+
+/-- `_remove_batch_dim` with the result structure read off the batched tensordict itself (`sample 0` is what the
+function computed on the batched leaves; for a vmap size of 0 it is never read at an in-bounds coordinate) -/
+def removeBDT (o : Nat) (b : BTD) : TD :=
+  ⟨b.batch.insertIdx o b.size, b.names.insertIdx o none, stackLeavesT (b.sample 0) ((List.range b.size).map b.sample) o⟩
+
 /-- `torch.stack(tds, o)` -/
 def stackTD (tds : List TD) (o : Nat) : TD :=
   ⟨(tds.headD ⟨[], [], []⟩).batch.insertIdx o tds.length, (tds.headD ⟨[], [], []⟩).names.insertIdx o none,
@@ -138,6 +154,9 @@ def BTD.sampleTD (b : BTD) (k : Nat) : TD := ⟨b.batch, b.names, b.sample k⟩
 
 /-- the code path of `torch.vmap(f, in_dims=i, out_dims=o)(td)` for `f` = program `p` -/
 def vmapTD (p : List TOp) (i o level : Nat) (td : TD) : TD := removeBD o (runProgB p (addBD i level td))
+
+/-- the same with `removeBDT`: defined for every vmap size, 0 included -/
+def vmapTDT (p : List TOp) (i o level : Nat) (td : TD) : TD := removeBDT o (runProgB p (addBD i level td))
 
 /-- the inner vmap of a nested vmap, as an operation of the outer function -/
 def vmapOp (p : List TOp) (i o level : Nat) : TOp :=
@@ -179,6 +198,24 @@ def TOp2.runB (op : TOp2) (a b : BTD) : BTD :=
 (`_validate_and_get_batch_size`) -/
 def vmapTD2 (op : TOp2) (p : List TOp) (i1 i2 : Option Nat) (o size level : Nat) (a b : TD) : TD :=
   removeBD o (runProgB p (op.runB (addBDOpt i1 size level a) (addBDOpt i2 size level b)))
+
+/-! ### nested vmaps of any depth -/
+
+/-- the function `vmap(vmap(… vmap(p, i_n, o_n) …, i_2, o_2), i_1, o_1)` as a program: `dims` lists the
+(in_dim, out_dim) pairs outermost first, levels count up from `lvl` -/
+def nestProg : List (Nat × Nat) → List TOp → Nat → List TOp
+  | [], p, _ => p
+  | (i, o) :: rest, p, lvl => [vmapOp (nestProg rest p (lvl + 1)) i o lvl]
+
+/-- the nested per-sample loop: stack over the slices along `i_1` of (stack over the slices along `i_2` of …) -/
+def loopSpec : List (Nat × Nat) → (TD → TD) → TD → TD
+  | [], f, td => f td
+  | (i, o) :: rest, f, td => stackTD ((unbindTD td i).map (loopSpec rest f)) o
+
+/-- every vmapped dimension along the nesting is non-empty -/
+def SizesPos : List (Nat × Nat) → Shape → Prop
+  | [], _ => True
+  | (i, _) :: rest, b => 0 < b.getD i 0 ∧ SizesPos rest (b.eraseIdx i)
 
 /-! ### dimension normalisation -/
 
